@@ -13,9 +13,9 @@ Status of the property's clauses:
   `conn_inv` (full strength for the wake-up protocol between `data_received` and `start()`);
   the unchanged code still violates the clause in two other ways, proved below as
   counterexamples: `start_dies_on_lazy_url_error` and `declined_upgrade_tail_stuck`.
-* *bounded queue of parsed-but-unhandled requests* — `queue_cap_sections_partial`
-  (the two atomic sections that touch the queue; the threading through the rest of the step
-  function, which never touches these fields, is not proved — see the comment there).
+* *bounded queue of parsed-but-unhandled requests* — `queue_bounded`, `queue_cap` (full strength,
+  all label sequences incl. re-entry of `feed_data` with a full queue), under the parser contract
+  `POut.respectsCap` that the correspondence run checks on every recorded parser call.
 * *one well-formed response per request, in order, no interleaving* — not a theorem: the
   unchanged code violates it (`second_header_block_inside_stream`,
   `close_delimited_body_then_next_response`); carried by correspondence + direct oracle.
@@ -54,13 +54,42 @@ theorem caps_agree :
     Gen.C05.msgQueueResumeSize < Gen.C05.maxMsgQueueSize ∧ 0 < Gen.C05.maxMsgQueueSize := by
   decide
 
-/- Full statement (not proved):
-     theorem queue_bounded : ∀ cfg progs oracle ls, QInv (run (init cfg progs oracle) ls)
-   i.e. as long as every recorded parser output respects `POut.respectsCap`, at most
-   `parserMaxMsgQueueSize` parsed requests are ever queued unhandled (until an `_ErrInfo` entry is
-   popped, after which the connection closes).  What is missing is only the frame argument that
-   no other part of `step` writes `inFlight/errPopped/capViolated/messages`. -/
-/-- **Queue cap, the sections that touch the queue (partial).** `QInv` — "`_msg_in_flight` ≤ cap
+/-- **Queue cap (full strength, all label sequences).** In every reachable state — whatever the
+segmentation, however often `feed_data` is re-entered (`data_received(b"")` from a body read below
+the low-water mark, further segments on a transport that cannot pause), whatever the handlers do —
+as long as every parser output respected the parser's side of the contract
+(`POut.respectsCap`: no new message is started while `_msg_in_flight >= _max_msg_queue_size`;
+a recorded output that breaks it raises `capViolated`, which the correspondence run reports as a
+mismatch): `_msg_in_flight` is within the cap and, until an `_ErrInfo` entry has been popped
+(after which the connection closes), it covers every queued request. -/
+theorem queue_bounded (cfg : Cfg) (progs : List Prog) (oracle : List POut) (ls : List Label) :
+    QInv (run (init cfg progs oracle) ls) :=
+  run_qinv _ ls (init_qinv cfg progs oracle)
+
+/-- … hence never more than `MAX_MSG_QUEUE_SIZE` parsed-but-unhandled requests. -/
+theorem queue_cap (cfg : Cfg) (progs : List Prog) (oracle : List POut) (ls : List Label) :
+    (run (init cfg progs oracle) ls).capViolated = false →
+    (run (init cfg progs oracle) ls).errPopped = false →
+    nreq (run (init cfg progs oracle) ls).messages ≤ Gen.C05.maxMsgQueueSize := by
+  intro hv he
+  have h := queue_bounded cfg progs oracle ls
+  have := Nat.le_trans ((h hv).2 he) (h hv).1
+  rw [caps_agree.1] at this
+  exact this
+
+/-- 32 requests parsed in one read behind a sleeping handler, on a transport that cannot pause -/
+def fullQueue (more : List POut) : St :=
+  init { canPause := false } [[.sleep 37, .fin .ok]] ({ msgs := List.replicate 32 {} } :: more)
+
+/-- non-vacuity: refilling the slot freed by the first pop is within the contract … -/
+example : let s := run (fullQueue [{ msgs := [{}] }]) [.data 900, .tick, .data 28]
+    s.capViolated = false ∧ s.inFlight = 32 ∧ nreq s.messages = 32 := by decide +kernel
+/-- … and a parser that starts a 33rd message on re-entry with a full queue (a `feed_data` that forgets the
+queue state between calls) is flagged, so the hypothesis of `queue_cap` is not void. -/
+example : let s := run (fullQueue [{ msgs := [{}] }, { msgs := [{}] }]) [.data 900, .tick, .data 28, .data 28]
+    s.capViolated = true ∧ nreq s.messages = 33 := by decide +kernel
+
+/-- Queue cap, the two sections that write the queue (kept for reference; subsumed by `queue_bounded`). `QInv` — "`_msg_in_flight` ≤ cap
 and it covers every queued request" — is preserved by `data_received` (for every parser output;
 an output that breaks the parser contract raises the `capViolated` flag, which the
 correspondence run reports) and by `popleft()+message_consumed()+low-water resume`. -/
